@@ -267,7 +267,9 @@ def render_stmt(s, ind):
             return [pad + "const char *" + s[2] + " = " + render_str(s[3]) + ";"]
         return [pad + "char " + s[2] + "[] = " + render_str(s[3]) + ";"]
     if k == "svar":                       # ["svar", spelled struct type, name, [[field, type, init]...]]
-        return [pad + s[1] + " " + s[2] + " = {" + ", ".join(rx(i, 2) for _, _, i in s[3]) + "};"]
+        q = s[4] if len(s) > 4 else ""
+        ty = ("const " + s[1]) if q == "const" else ((s[1] + " const") if q == "post-const" else s[1])
+        return [pad + ty + " " + s[2] + " = {" + ", ".join(rx(i, 2) for _, _, i in s[3]) + "};"]
     if k == "spdecl":                     # ["spdecl", form, spelled struct type, pointer name, struct var, fields]
         form = {"": "%s *%s", "pc": "const %s *%s", "pc2": "%s const *%s", "cp": "%s * const %s"}[s[1]]
         return [pad + form % (s[2], s[3]) + " = &" + s[4] + ";"]
@@ -751,7 +753,8 @@ class Interp:
                 tv, v = self.ev(init)
                 if promote(tv) != ft and not (init[0] == "lit" and ft == "double" and tv == "int"):
                     raise Invalid("narrowing in a braced initialiser")
-                self.declare(s[2] + "." + fn, Obj(ft, [conv(v, promote(tv) if tv != ft else tv, ft)]))
+                self.declare(s[2] + "." + fn, Obj(ft, [conv(v, promote(tv) if tv != ft else tv, ft)],
+                                                  const=bool(s[4] if len(s) > 4 else "")))
         elif k == "spdecl":
             for fn in s[5]:
                 o = self.lookup(s[4] + "." + fn)
@@ -1159,9 +1162,27 @@ class Gen:
             e = ["bin", op, sub("num"), sub("num")]
         elif c < 0.80:
             op = self.pick(["-", "-", "+", "~", "!"])
-            e = ["un", op, sub("num" if op == "!" else "int")]
-            if op in "+-" and e[2][0] == "un" and e[2][1] == op:
+            if op in "+-" and self.p(0.3) and "unary-chain" not in self.avoid:
+                # - -x, + +x, - --x, -(-x): the blank / parentheses between the two operators matter
+                inner = self.leaf(scope, "int")
+                c2 = self.u()
+                if c2 < 0.5:
+                    e = ["un", op, ["un", op, inner]]
+                elif c2 < 0.7 and inner[0] == "var" and self.no_embed == 0 and inner[1] not in self.locked:
+                    vs = [v for v in scope if v["name"] == inner[1] and v["kind"] == "scalar" and not v["const"] and
+                          not v.get("noembed") and v["t"] in ("int", "long")]
+                    if vs:
+                        self.locked.add(inner[1])
+                        e = ["bin", "+", ["un", op, ["pre", op + op, inner]], self.int_lit(0, 5, "int")]
+                    else:
+                        e = ["un", op, ["par", ["un", op, inner]]]
+                else:
+                    e = ["un", op, ["par", ["un", op, inner]]]
                 self.feat.add("unary-chain")
+            else:
+                e = ["un", op, sub("num" if op == "!" else "int")]
+                if op in "+-" and e[2][0] == "un" and e[2][1] == op:
+                    self.feat.add("unary-chain")
         elif c < 0.86:
             e = ["ter", self.cond(scope, depth - 1), sub(), sub()]
             if e[2][0] == "ter" or e[3][0] == "ter":
@@ -1585,9 +1606,12 @@ class Gen:
         r = self.r
         tops = []
         self.enums = []
-        for i in range(r.randint(0, 2)):
-            t = self.pick(["int", "long", "uint", "double", "ulong"])
+        for i in range(r.randint(0, 3)):
+            t = self.pick(["int", "long", "uint", "double", "int", "long"])
             base = self.pick(self.spell[t])
+            chained = [x for x in self.spell[t] if x.startswith("T")]
+            if chained and self.p(0.6):
+                base = self.pick(chained)
             if base.startswith("T") and "typedef-chain" in self.avoid:
                 base = SPELL[t][0]
             name = "T%d" % i
@@ -1639,9 +1663,18 @@ class Gen:
             init = self.expr(scope, "dbl", 1) if ft == "double" else self.typed_int(scope, ft)
             inits.append([fn, ft, init])
             new.append({"name": nm + "." + fn, "kind": "scalar", "t": ft, "const": False, "noembed": True})
-        new.append({"name": nm, "kind": "structvar", "t": None, "const": False, "struct": st})
+        qual = self.pick(["", "", "", "const", "post-const"])
+        if qual == "post-const" and "struct-post-const" in self.avoid:
+            qual = "const"
+        if qual:
+            for v in new:
+                v["const"] = True
+            self.feat.add("struct-var-const")
+            if qual == "post-const":
+                self.feat.add("struct-post-const")
+        new.append({"name": nm, "kind": "structvar", "t": None, "const": bool(qual), "struct": st})
         self.feat.add("struct-var")
-        return ["svar", self.pick(st["spell"]), nm, inits], new
+        return ["svar", self.pick(st["spell"]), nm, inits, qual], new
 
     def spdecl_stmt(self, scope):
         svs = [v for v in scope if v["kind"] == "structvar"]
@@ -1650,8 +1683,8 @@ class Gen:
         sv = self.pick(svs)
         st = sv["struct"]
         nm = self.fresh("ps")
-        forms = ["", "", "pc", "cp"]
-        if "ptr-post-const" not in self.avoid:
+        forms = ["pc"] if sv["const"] else ["", "", "pc", "cp"]
+        if "struct-post-const" not in self.avoid:
             forms.append("pc2")
         form = self.pick(forms)
         new = []
@@ -1780,6 +1813,31 @@ def program(r, avoid=(), nstmts=(4, 9)):
     first = ["decl", "", "long", "long", [["r", ["lit", "0", "int", 0]]]]
     states, _ = _try_stmt(states, main, first)
     main["body"].append(first)
+    # a struct variable (and a pointer to it) / an enum variable early, so that the declared types are used
+    early = []
+    if g.structs and g.p(0.8):
+        early.append(lambda: g.svar_stmt(scope))
+        if g.p(0.6):
+            early.append(lambda: g.spdecl_stmt(scope))
+    if g.enums and g.p(0.5):
+        def _ev():
+            nm = g.fresh("e")
+            en = g.pick(g.enums)
+            g.feat.add("enum-var")
+            form = g.pick(["enum E0", "enum E0", "const enum E0", "enum E0 const"])
+            if form == "enum E0 const" and "struct-post-const" in g.avoid:
+                form = "const enum E0"
+            return ["decl", "", "int", form, [[nm, ["lit", en[0], "int", en[1]]]]], \
+                   [{"name": nm, "kind": "scalar", "t": "int", "const": True, "noaddr": True}]
+        early.append(_ev)
+    for mk in early:
+        stmt, new = mk()
+        if stmt is None:
+            continue
+        states, ok = _try_stmt(states, main, stmt)
+        if ok:
+            main["body"].append(stmt)
+            scope.extend(new)
     target = r.randint(*nstmts)
     tries = 0
     while len(main["body"]) - 1 < target and tries < target * 3:
